@@ -23,45 +23,60 @@ from .. import spec
 MOD = "corankco.algorithms.copeland.copeland"
 
 
-def _eval_fill(f, matrix, n):
-    p = f.param_names[0]
-    env = {p: matrix, p + ".shape": (n, n, 3)}
-    evl = Evaluator(env)
-    evl.opaque_ok = True
+_RT = {}
+
+
+def _eval_fill(proj, f, matrix, n):
+    """The real pair counter (whatever helpers / numpy idioms it uses) evaluated on a concrete cost cube. Returns
+    (scores, results) as python lists, or raises AnalysisError on a construct the evaluator does not model."""
+    from ..engines.instances import Runtime
+    from ..engines.stdlib import install
+    from ..engines.npmodel import Cube
+    from ..engines.abseval import Vec, Mat, AbsRaise, IndexOut
+    if id(proj) not in _RT:
+        _RT.clear()
+        _RT[id(proj)] = install(Runtime(proj))
+    rt = _RT[id(proj)]
+    rt.max_steps = 3000000
+    cube = Cube([[list(c) for c in row] for row in matrix])
+    cube.as_matrix = True
+    cls = proj.cls(MOD, "CopelandMethod")
     try:
-        ret = evl.run(f.body_without_docstring())
+        ret = rt.call_static(cls, "_fill_dicts_copeland", cube)
     except Unsupported as exc:
         raise AnalysisError(f"{f.qualname}: unsupported construct at line {getattr(exc.node, 'lineno', '?')}: {exc}")
-    return ret, evl
+    except (AbsRaise, IndexOut) as exc:
+        return None, f"raises {exc}"
+    if not (isinstance(ret, tuple) and len(ret) == 2):
+        return None, f"returns {ret!r}, expected (scores, results)"
+    sc, rs = ret
+    sc = list(sc.vals) if isinstance(sc, Vec) else (list(sc) if isinstance(sc, list) else None)
+    rs = [list(r) for r in rs.rows] if isinstance(rs, Mat) else ([list(r) for r in rs] if isinstance(rs, list) else None)
+    if sc is None or rs is None:
+        return None, f"returns {ret!r}, expected (scores array, results array)"
+    return (sc, rs), ""
 
 
-def _tally(evl, n):
-    scores = [Fraction(0)] * n
-    results = [[0, 0, 0] for _ in range(n)]
-    other = []
-    roles = {}
-    for name, rhs in evl.opaque.items():
-        roles[name] = rhs
-    for e in evl.effects:
-        if e.op != "+=":
-            other.append(e)
-            continue
-        v = e.value
-        if isinstance(v, float):
-            v = Fraction(v)
-        if len(e.target) == 2 and isinstance(e.target[1], int):
-            scores_name = e.target[0]
-            roles.setdefault("__scores__", scores_name)
-            if roles["__scores__"] != scores_name:
-                other.append(e)
-                continue
-            scores[e.target[1]] += Fraction(v)
-        elif len(e.target) == 3:
-            results[e.target[1]][e.target[2]] += v
-            roles.setdefault("__results__", e.target[0])
-        else:
-            other.append(e)
-    return scores, results, other, roles
+def _expected(matrix, n):
+    exp_scores = [Fraction(0)] * n
+    exp_results = [[0, 0, 0] for _ in range(n)]
+    for i in range(n):
+        for j in range(i + 1, n):
+            b, a = matrix[i][j][0], matrix[i][j][1]
+            if b < a:
+                exp_scores[i] += 1; exp_results[i][0] += 1; exp_results[j][2] += 1
+            elif a < b:
+                exp_scores[j] += 1; exp_results[j][0] += 1; exp_results[i][2] += 1
+            else:
+                exp_scores[i] += Fraction(1, 2); exp_scores[j] += Fraction(1, 2)
+                exp_results[i][1] += 1; exp_results[j][1] += 1
+    return exp_scores, exp_results
+
+
+def _same(got, exp_scores, exp_results):
+    sc, rs = got
+    return len(sc) == len(exp_scores) and all(Fraction(x) == y for x, y in zip(sc, exp_scores)) and \
+        [[int(v) if float(v).is_integer() else v for v in r] for r in rs] == exp_results
 
 
 def run(ctx) -> Result:
@@ -78,65 +93,65 @@ def run(ctx) -> Result:
     res.rule("O4", "cost matrix and Consensus use the caller's dataset and scheme", 2)
 
     # ------------------------------------------------------------------ O1
-    want = {
-        "lt": ([1, 0], [[1, 0, 0], [0, 0, 1]]),
-        "gt": ([0, 1], [[0, 0, 1], [1, 0, 0]]),
-        "eq": ([Fraction(1, 2), Fraction(1, 2)], [[0, 1, 0], [0, 1, 0]]),
+    # order types of (before, after) at ordinary, huge and tiny magnitudes: the comparison is exact, never "close enough"
+    variants = {
+        "lt": [(0, 1), (2, 5), (1e9, 1e9 + 1), (1e-9, 2e-9), (0.1 + 0.2, 0.30000000000000010)],
+        "gt": [(1, 0), (5, 2), (1e9 + 1, 1e9), (2e-9, 1e-9), (0.30000000000000010, 0.1 + 0.2)],
+        "eq": [(1, 1), (5, 5), (1e9, 1e9), (1e-9, 1e-9), (0.0, 0.0)],
     }
-    for label, (b, a) in (("lt", (0, 1)), ("gt", (1, 0)), ("eq", (1, 1))):
+    for label in ("lt", "gt", "eq"):
         good = True
         detail = ""
-        for b2, a2 in ((b, a), (b * 3 + 2, a * 3 + 2)):
+        n_cases = 0
+        for b2, a2 in variants[label]:
+            if label != "eq" and not ((b2 < a2) if label == "lt" else (a2 < b2)):
+                continue
             for tie in (0, 1, 5):
                 m = [[[0, 0, 0], [b2, a2, tie]], [[a2, b2, tie], [0, 0, 0]]]
-                ret, evl = _eval_fill(f, m, 2)
-                scores, results, other, roles = _tally(evl, 2)
-                if other:
-                    good, detail = False, f"unexpected effect {other[0]!r}"
-                if (scores, results) != (list(map(Fraction, want[label][0])), want[label][1]):
+                got, err = _eval_fill(proj, f, m, 2)
+                n_cases += 1
+                es, er = _expected(m, 2)
+                if got is None:
+                    good, detail = False, err
+                elif not _same(got, es, er) and good:
                     good = False
-                    detail = f"before={b2} after={a2} tie={tie}: scores {[str(s) for s in scores]} results {results}; " \
-                             f"expected {[str(s) for s in want[label][0]]} {want[label][1]}"
-                if not (isinstance(ret, tuple) and len(ret) == 2 and isinstance(ret[0], Sym) and isinstance(ret[1], Sym)
-                        and ret[0].name == roles.get("__scores__") and ret[1].name == roles.get("__results__")):
-                    good, detail = False, f"returns {ret!r}, expected (scores, results)"
+                    detail = f"before={b2!r} after={a2!r} tie={tie}: scores {got[0]} results {got[1]}; " \
+                             f"expected {[str(s_) for s_ in es]} {er}"
         res.check(good, "O1", f"_fill_dicts_copeland:before-{label}-after", f.loc(),
-                  ok_detail=f"scores {[str(s) for s in want[label][0]]}, [victories, equalities, defeats] {want[label][1]}",
+                  ok_detail=f"{n_cases} cost cells (ordinary, 1e9-scale and 1e-9-scale costs) counted as {label}",
                   bad_detail=detail)
     # ------------------------------------------------------------------ O2
-    n = 4
-    profile = {}
-    vals = [(0, 1), (1, 0), (1, 1), (0, 1), (1, 1), (1, 0)]
-    k = 0
-    m = [[[0, 0, 0] for _ in range(n)] for _ in range(n)]   # the real matrix has a zero diagonal
-    for i in range(n):
-        for j in range(i + 1, n):
-            b, a = vals[k]
-            k += 1
-            m[i][j] = [b, a, 7]
-            m[j][i] = [a, b, 7]
-            profile[(i, j)] = (b, a)
-    ret, evl = _eval_fill(f, m, n)
-    scores, results, other, roles = _tally(evl, n)
-    exp_scores = [Fraction(0)] * n
-    exp_results = [[0, 0, 0] for _ in range(n)]
-    for (i, j), (b, a) in profile.items():
-        if b < a:
-            exp_scores[i] += 1; exp_results[i][0] += 1; exp_results[j][2] += 1
-        elif a < b:
-            exp_scores[j] += 1; exp_results[j][0] += 1; exp_results[i][2] += 1
-        else:
-            exp_scores[i] += Fraction(1, 2); exp_scores[j] += Fraction(1, 2)
-            exp_results[i][1] += 1; exp_results[j][1] += 1
-    res.check(not other and scores == exp_scores and results == exp_results, "O2", "_fill_dicts_copeland:coverage-n4",
-              f.loc(), ok_detail=f"each of the 6 unordered pairs counted once: scores {[str(s) for s in scores]} "
-                                 f"(sum {sum(scores)}), counts per element sum to {n - 1}",
-              bad_detail=f"scores {[str(s) for s in scores]} results {results}, expected "
-                         f"{[str(s) for s in exp_scores]} {exp_results}")
-    sums_ok = all(sum(r) == n - 1 for r in results) and sum(scores) == Fraction(n * (n - 1), 2)
-    res.check(sums_ok, "O2", "_fill_dicts_copeland:sums", f.loc(),
-              ok_detail="counts sum to n-1 per element and scores to n(n-1)/2",
-              bad_detail=f"counts per element {[sum(r) for r in results]}, scores sum {sum(scores)}")
+    def coverage(n, tag):
+        vals = [(0, 1), (1, 0), (1, 1), (0, 1), (1, 1), (1, 0), (2, 1)]
+        m = [[[0, 0, 0] for _ in range(n)] for _ in range(n)]   # the real matrix has a zero diagonal
+        k = 0
+        for i in range(n):
+            for j in range(i + 1, n):
+                b, a = vals[(k * 5 + i) % len(vals)]
+                k += 1
+                m[i][j] = [b, a, 7]
+                m[j][i] = [a, b, 7]
+        got, err = _eval_fill(proj, f, m, n)
+        es, er = _expected(m, n)
+        ok = got is not None and _same(got, es, er)
+        first = ""
+        if got is not None and not ok:
+            idx = next((i for i in range(n) if i >= len(got[0]) or Fraction(got[0][i]) != es[i] or
+                        [int(v) for v in got[1][i]] != er[i]), 0)
+            first = (f"element {idx}: score {got[0][idx] if idx < len(got[0]) else '?'} counts "
+                     f"{got[1][idx] if idx < len(got[1]) else '?'}, expected {es[idx]} {er[idx]}")
+        res.check(ok, "O2", f"_fill_dicts_copeland:coverage-n{n}", f.loc(),
+                  ok_detail=f"each of the {n * (n - 1) // 2} unordered pairs counted once ({tag})",
+                  bad_detail=err or first)
+        if got is not None:
+            sums_ok = all(sum(r) == n - 1 for r in got[1]) and sum(Fraction(x) for x in got[0]) == Fraction(n * (n - 1), 2)
+            res.check(sums_ok, "O2", f"_fill_dicts_copeland:sums-n{n}", f.loc(),
+                      ok_detail="counts sum to n-1 per element and scores to n(n-1)/2",
+                      bad_detail=f"counts per element {[sum(r) for r in got[1]][:8]}..., scores sum {sum(Fraction(x) for x in got[0])}")
+    coverage(4, "4 elements")
+    coverage(7, "7 elements")
+    coverage(130, "130 elements: beyond any small block / chunk size")
+    res.explored_threshold = 129
 
     # ------------------------------------------------------------------ O3
     profiles = [list(p) for p in spec.WEAK_ORDERS_3] + [[2.0, 0.5, 2.0, 0.5]]
